@@ -1,6 +1,7 @@
 """C10 -- equation of state: thermodynamic consistency and smooth extrapolation."""
 import json
 import math
+import os
 import random
 import re
 import subprocess
@@ -15,15 +16,25 @@ import vlib
 import wgmodels
 
 EXPLANATION = (
-    "The whole Thermodynamics class (all piecewise EOS functions of both phases and "
-    "setExtrapolate, as a state transformer) is regenerated from thermodynamics.py by "
-    "the pyrx translator; Coq proves, for EVERY free-energy table with positive enthalpy "
-    "and heat capacity at the range ends and for every prior state, the identities "
-    "e=Tp'-p, w=Tp', cs2=p'/e' at all T>0, that p', p'' are the derivatives of p away "
-    "from the two junctions, continuity of p,p',p'',cs2 across both range ends, and "
-    "p=-Veff inside. Model values are compared with the running implementation by "
-    "certified interval evaluation; the property is also evaluated directly on the "
-    "implementation (stub and traced free energies).")
+    "The whole Thermodynamics class (all piecewise EOS functions of both phases, alpha, and "
+    "setExtrapolate as a state transformer) is regenerated from thermodynamics.py by the pyrx "
+    "translator on every run; Coq proves, for EVERY free-energy table with positive enthalpy "
+    "and heat capacity at the range ends and for every prior state: e=Tp'-p, w=Tp', de=Tp'' at "
+    "all T; cs2=p'/e' at every T>0; p', p'' are the derivatives of p and de/dT the derivative "
+    "of e at EVERY T>0 (below, inside, above the table and at the two junction temperatures "
+    "themselves); p, p', p'', cs2 are continuous (two-sided) at both range ends; p=-f inside; "
+    "alpha is assembled as documented; and two frame theorems over facts extracted from every "
+    "file under src/WallGo (only __init__/setExtrapolate write the modelled state; no method "
+    "is rebound on an instance, on the class, in a subclass or through a base class, and the "
+    "two free-energy members are bound by __init__ only). Model values are compared with the "
+    "running implementation by certified interval evaluation (also when a later lemma of the "
+    "Props file breaks); the property is also evaluated directly on the implementation with "
+    "stub and traced free energies, each object taken through a history (values read before "
+    "the first trace and beyond the spinodals, setExtrapolate repeated, other methods called, "
+    "phases re-traced over other windows and with other settings, the potential's parameters "
+    "changed in place) and compared bit for bit with objects built afresh from the "
+    "constructor arguments (Thermodynamics on the same tables, FreeEnergy traced with the "
+    "same arguments) and with the closed form of the CURRENT potential.")
 
 FUNS = ["p", "dp", "ddp", "e", "de", "w", "csq"]
 
@@ -71,6 +82,23 @@ def impl_values(th, T):
     return out
 
 
+def margin(ctx, clause, observed, allowed, at=None):
+    """worst observed/allowed per clause, kept in the evidence (coverage.tolerance_margins)"""
+    observed, allowed = float(observed), float(allowed)
+    fr = observed / allowed if allowed > 0 else (0.0 if observed == 0 else math.inf)
+    if fr != fr:
+        fr = math.inf
+    m = ctx.cov.setdefault("tolerance_margins", {})
+    r = m.get(clause)
+    if r is None:
+        r = m[clause] = dict(worst_used_fraction=-1.0, evaluations=0)
+    r["evaluations"] += 1
+    if fr > r["worst_used_fraction"]:
+        r.update(worst_used_fraction=float("%.3g" % fr), observed=float("%.6g" % observed),
+                 allowed=float("%.6g" % allowed), at=at)
+    return fr <= 1.0
+
+
 def direct_checks(ctx, th, label, case, extra=None):
     """The property evaluated on the implementation object `th` (after setExtrapolate).
     extra: {phase: [temperatures]} additional probe points (e.g. table nodes)."""
@@ -98,11 +126,15 @@ def direct_checks(ctx, th, label, case, extra=None):
                     key="nonfinite:" + ph)
                 continue
             sc = abs(vals["p"]) + abs(T * vals["dp"]) + 1e-300
-            if abs(vals["e"] - (T * vals["dp"] - vals["p"])) > 1e-10 * sc:
+            at = "%sT(%.9g) [%s]" % (ph, T, label)
+            mg = lambda cl, o, a: margin(ctx, cl + " [" + label.split("_")[0] + "]", o, a, at)
+            if not mg("e = T dp - p", abs(vals["e"] - (T * vals["dp"] - vals["p"])),
+                      1e-10 * sc):
                 bad = "e != T dp - p"
-            elif abs(vals["w"] - T * vals["dp"]) > 1e-10 * sc:
+            elif not mg("w = T dp", abs(vals["w"] - T * vals["dp"]), 1e-10 * sc):
                 bad = "w != T dp"
-            elif abs(vals["csq"] - vals["dp"] / vals["de"]) > 1e-8 * abs(vals["csq"]):
+            elif not mg("csq = dp/de", abs(vals["csq"] - vals["dp"] / vals["de"]),
+                        1e-8 * abs(vals["csq"])):
                 bad = "csq != dp/de"
             else:
                 # reported derivatives vs central differences (away from the junctions)
@@ -117,10 +149,11 @@ def direct_checks(ctx, th, label, case, extra=None):
                 if min(abs(T - lo), abs(T - hi)) > 2 * h:
                     d1 = (float(p(T + h)) - float(p(T - h))) / (2 * h)
                     d2 = (float(dp(T + h)) - float(dp(T - h))) / (2 * h)
-                    if abs(d1 - vals["dp"]) > 3e-6 * abs(vals["dp"]) + 1e-7 * sc / T:
+                    if not mg("dp is the derivative of p", abs(d1 - vals["dp"]),
+                              3e-6 * abs(vals["dp"]) + 1e-7 * sc / T):
                         bad = "dp is not the derivative of p"
-                    elif abs(d2 - vals["ddp"]) > 3e-6 * abs(vals["ddp"]) + \
-                            1e-7 * sc / T ** 2:
+                    elif not mg("ddp is the derivative of dp", abs(d2 - vals["ddp"]),
+                                3e-6 * abs(vals["ddp"]) + 1e-7 * sc / T ** 2):
                         bad = "ddp is not the derivative of dp"
             if bad:
                 ok = False
@@ -139,7 +172,9 @@ def direct_checks(ctx, th, label, case, extra=None):
                 a, b0, c = float(f(Tb - d)), float(f(Tb)), float(f(Tb + d))
                 ref = abs(b0) + scale + 1e-300
                 ctx.count("continuity_" + label)
-                if not (abs(a - b0) <= 1e-6 * ref and abs(c - b0) <= 1e-6 * ref):
+                if not margin(ctx, "continuity of %s at the range ends [%s]" % (
+                        fn, label.split("_")[0]), max(abs(a - b0), abs(c - b0)), 1e-6 * ref,
+                        "%s%sT at %s=%.9g [%s]" % (fn, ph, end, Tb, label)):
                     ok = False
                     ctx.fail_input(
                         "%s%sT jumps across %s%sT=%.8g: %.12g | %.12g | %.12g [%s]" % (
@@ -160,16 +195,42 @@ RANGE_ATTRS = (("TMaxHighT", "freeEnergyHigh", "maxPossibleTemperature"),
                ("TMinLowT", "freeEnergyLow", "minPossibleTemperature"))
 
 
-def fresh_twin(th):
-    """A new Thermodynamics object on the SAME two free-energy objects, in the state
-    __init__ leaves it in, after one setExtrapolate(): what `th` must be indistinguishable
-    from whatever its history was (caches, stale copies, order dependence show up here)."""
-    t2 = object.__new__(type(th))
-    t2.__dict__.update(th.__dict__)
-    for a in gen_thermo.ATTRS:
-        setattr(t2, a, 0.0)
+_DUMMY = []
+
+
+def stub_ctor(Tn):
+    """constructor arguments for an object whose tables are then replaced by analytic stubs"""
+    from WallGo import Fields
+    if not _DUMMY:
+        _DUMMY.append(wgmodels.quartic1())
+    return (_DUMMY[0], float(Tn), Fields([1.0]), Fields([0.0]))
+
+
+def on_tables(ctor, feHigh, feLow):
+    """A Thermodynamics object built by its own CONSTRUCTOR from `ctor` (so everything
+    __init__ sets up -- per-instance caches, wrappers, bookkeeping -- is there and fresh), with
+    the two free-energy members replaced by the given tables and the four range attributes
+    re-read from them, i.e. the state __init__ would have left had it been given these tables"""
+    from WallGo import Thermodynamics
+    t2 = Thermodynamics(*ctor)
+    t2.freeEnergyHigh, t2.freeEnergyLow = feHigh, feLow
     for a, fe, lim in RANGE_ATTRS:
-        setattr(t2, a, getattr(getattr(th, fe), lim)[0])
+        setattr(t2, a, getattr(getattr(t2, fe), lim)[0])
+    return t2
+
+
+def make_stub(cHigh, rngHigh, cLow, rngLow, Tn):
+    """a real Thermodynamics object (constructed by __init__) on two analytic tables"""
+    return on_tables(stub_ctor(Tn), wgmodels.StubFreeEnergy(cHigh, *rngHigh),
+                     wgmodels.StubFreeEnergy(cLow, *rngLow))
+
+
+def fresh_twin(th, ctor):
+    """A new Thermodynamics object built from the constructor arguments on the SAME two
+    free-energy objects, after one setExtrapolate(): what `th` must be indistinguishable from
+    whatever its history was (caches, stale copies, order dependence show up here; nothing is
+    copied from th.__dict__, so state hidden there cannot leak into the twin)."""
+    t2 = on_tables(ctor, th.freeEnergyHigh, th.freeEnergyLow)
     t2.setExtrapolate()
     return t2
 
@@ -186,9 +247,9 @@ def probe_temps(th, absolute=()):
     return [float(t) for t in out if t > 0 and math.isfinite(t)]
 
 
-def twin_check(ctx, th, label, case, absolute=()):
+def twin_check(ctx, th, label, case, absolute=(), ctor=None):
     """bit-equal with a fresh object on the same tables, at the same temperatures"""
-    t2 = fresh_twin(th)
+    t2 = fresh_twin(th, ctor)
     for a in gen_thermo.ATTRS:
         ctx.count("twin_" + label)
         if not same(float(getattr(th, a)), float(getattr(t2, a))):
@@ -226,12 +287,12 @@ def hypotheses_hold(ctx, th, label):
     return ok
 
 
-def eval_file(model_id, cH, rH, cL, rL, rows):
+def eval_file(model_id, cH, rH, cL, rL, rows, module="Props_C10"):
     """Coq file with certified interval evaluations for one stub model."""
     hdr = """From Coq Require Import Reals Lra.
 From Interval Require Import Tactic.
 From WG Require Import Lib.NumpySem Lib.EosTemplate.
-From GenC10 Require Import Thermo Props_C10.
+From GenC10 Require Import Thermo %s.
 Local Open Scope R_scope.
 Definition e0 := mk_env %s %s %s %s %s %s %s %s %s %s.
 Definition s00 := mk_st 0 0 0 0 0 0 0 0 0 0 0 0 0 0 0 0.
@@ -260,7 +321,7 @@ Ltac ev :=
   rewrite ?Heps, ?Heps', ?HA, ?HA', ?Hmu, ?Hmu', ?Leps, ?Leps', ?LA, ?LA', ?Lmu, ?Lmu';
   cbn [fHigh dfHigh ddfHigh fLow dfLow ddfLow tabMinHigh tabMaxHigh tabMinLow tabMaxLow e0];
   interval with (i_prec 90).
-""" % (coq_poly(cH), coq_poly(cL), coq_poly(cH, 1), coq_poly(cH, 2), coq_poly(cL, 1),
+""" % (module, coq_poly(cH), coq_poly(cL), coq_poly(cH, 1), coq_poly(cH, 2), coq_poly(cL, 1),
        coq_poly(cL, 2), pyrx.rlit(rH[1]), pyrx.rlit(rH[0]), pyrx.rlit(rL[1]),
        pyrx.rlit(rL[0]))
     goals = []
@@ -274,13 +335,120 @@ Ltac ev :=
     return hdr + "\n".join(goals) + "\n"
 
 
+def make_quartic(par):
+    """V = D (T^2 - T0^2) phi^2 - E T phi^3 + lam/4 phi^4 - g pi^2/90 T^4 whose parameters live
+    on the object (`par`) and may be changed in place, as a parameter scan that keeps its
+    objects does"""
+    from WallGo import EffectivePotential, Fields
+
+    class Quartic(EffectivePotential):
+        fieldCount = 1
+        effectivePotentialError = 1e-15
+
+        def __init__(self, par):
+            super().__init__()
+            self.par = dict(par)
+
+        def evaluate(self, fields, temperature):
+            q = self.par
+            phi = Fields(fields).getField(0)
+            T = np.asarray(temperature)
+            return (q["D"] * (T ** 2 - q["T0"] ** 2) * phi ** 2 - q["E"] * T * phi ** 3
+                    + q["lam"] / 4 * phi ** 4 - q["g"] * math.pi ** 2 / 90 * T ** 4)
+
+    return Quartic(par)
+
+
+def quartic_closed(par):
+    """closed forms of both phases of make_quartic(par): spinodals, Tc, minimum, and the
+    equation of state p, dp/dT, d2p/dT2 (envelope theorem) and alpha"""
+    D, E, lam, T0, g = (par[k] for k in ("D", "E", "lam", "T0", "g"))
+    ex = wgmodels.quartic1_exact(D=D, E=E, lam=lam, T0=T0, g=g)
+    a = g * math.pi ** 2 / 90
+    phi = ex["phi_broken"]
+
+    def dphi(T):
+        disc = 9 * E ** 2 * T ** 2 - 8 * lam * D * (T ** 2 - T0 ** 2)
+        return (3 * E + (9 * E ** 2 - 8 * lam * D) * T / math.sqrt(disc)) / (2 * lam)
+
+    def eos(ph, T):
+        if ph == "High":
+            return a * T ** 4, 4 * a * T ** 3, 12 * a * T ** 2
+        f, df = phi(T), dphi(T)
+        return (-ex["V"](f, T), -(2 * D * T * f ** 2 - E * f ** 3 - 4 * a * T ** 3),
+                -(2 * D * f ** 2 + (4 * D * T * f - 3 * E * f ** 2) * df - 12 * a * T ** 2))
+
+    def alpha(T):
+        pH, dpH, _ = eos("High", T)
+        pL, dpL, ddpL = eos("Low", T)
+        return ((T * dpH - pH) - (T * dpL - pL) - (pH - pL) / (dpL / (T * ddpL))) / (3 * T * dpH)
+
+    ex.update(eos=eos, alpha=alpha, phi=dict(High=lambda T: 0.0, Low=phi))
+    return ex
+
+
+def fe_twin_check(ctx, fe, which, ctor, adaptive_off, limits, args, kw, case):
+    """A twin one level down: a FreeEnergy built afresh from the CONSTRUCTOR arguments, given the
+    limits the object had before the call, and traced with the same arguments on the potential
+    as it is NOW must end up with the same table, limits and starting point, bit for bit.
+    (State kept inside the free-energy objects -- warm starts, tables kept from an earlier
+    trace, settings remembered -- is invisible to a Thermodynamics twin that shares them.)"""
+    from WallGo.freeEnergy import FreeEnergy
+    from WallGo import Fields
+    f2 = FreeEnergy(ctor[0], ctor[1], Fields(np.array(ctor[2], dtype=float)))
+    if adaptive_off:
+        f2.disableAdaptiveInterpolation()
+    f2.minPossibleTemperature = list(limits[0])
+    f2.maxPossibleTemperature = list(limits[1])
+    f2.tracePhase(*args, **kw)
+    arr = lambda x: np.asarray(x, dtype=float)
+    items = [("startingTemperature", fe.startingTemperature, ctor[1]),
+             ("startingPhaseLocationGuess", fe.startingPhaseLocationGuess, ctor[2]),
+             ("minPossibleTemperature", fe.minPossibleTemperature, f2.minPossibleTemperature),
+             ("maxPossibleTemperature", fe.maxPossibleTemperature, f2.maxPossibleTemperature),
+             ("_interpolationPoints", fe._interpolationPoints, f2._interpolationPoints),
+             ("_interpolationValues", fe._interpolationValues, f2._interpolationValues)]
+    ok = True
+    for name, x, y in items:
+        ctx.count("free_energy_twin")
+        x, y = arr(x), arr(y)
+        if name == "startingPhaseLocationGuess":
+            x, y = x.ravel(), y.ravel()
+        if x.shape != y.shape or not np.array_equal(x, y, equal_nan=True):
+            ok = False
+            if x.shape == y.shape and x.size:
+                k = int(np.argmax(np.abs(np.where(x == y, 0.0, x - y)).ravel()))
+                d = "entry %d: %r vs %r" % (k, x.ravel()[k], y.ravel()[k])
+            else:
+                d = "shapes %s vs %s" % (x.shape, y.shape)
+            ctx.fail_input(
+                "after its history freeEnergy%s.%s differs from a FreeEnergy built afresh from "
+                "the constructor arguments and traced with the same arguments tracePhase%s %s "
+                "on the current potential (%s) [%s]" % (which, name, tuple(args), kw, d,
+                                                        case.get("stage")),
+                dict(kind="fe_twin", phase=which, attr=name, args=list(args), kwargs=kw,
+                     limits_before=[list(limits[0]), list(limits[1])], case=case),
+                key="history:free-energy-differs-from-fresh-trace:" + name)
+    return ok
+
+
 def traced_model(ctx, rng, variant=0):
-    """End to end: real FreeEnergy tables traced on the closed-form quartic potential.
-    variant 0: paranoid tracing, then a HISTORY on the same objects (limits lifted, both
-    phases re-traced over wider, then over narrower shifted windows, setExtrapolate again,
-    findCriticalTemperature in between);
-    variant 1: non-paranoid tracing with a very tight tolerance (the re-minimisation
-    branch of the tracer fires at most steps)."""
+    """End to end: real FreeEnergy tables traced on the closed-form quartic potential, ONE
+    Thermodynamics object taken through a history:
+      0. before any table exists every EOS function is read on a grid that runs beyond a
+         spinodal (variant 0: upwards beyond the end of the low-T phase, adaptive interpolation
+         switched off as WallGoManager does; variant 1: downwards to below T0, defaults) and
+         judged against the closed form where the phase exists;
+      1. first trace (variant 0 paranoid, variant 1 non-paranoid with a very tight tolerance:
+         the re-minimisation branch of the tracer fires at most steps), other methods;
+      2. a parameter of the potential is changed IN PLACE and both phases are traced again over
+         the SAME windows with the SAME settings, limits not lifted (a parameter scan that
+         keeps its objects), judged against the closed form of the CURRENT parameters;
+      3. (variant 0) limits lifted, both phases re-traced wider with another dT, rTol and
+         paranoid off, then narrower and shifted with yet other settings, other methods.
+    After every trace the free-energy object is compared with a fresh one traced with the same
+    arguments; after every stage the identities, continuity, p = -Veff(min), alpha and the
+    comparison with a Thermodynamics object built afresh on the same tables are evaluated."""
     import WallGo
     from WallGo import Fields, Thermodynamics
     D = rng.choice([0.15, 0.2, 0.3])
@@ -289,25 +457,84 @@ def traced_model(ctx, rng, variant=0):
     T0 = rng.choice([60.0, 80.0])
     uTn, uLoH, uHiH, uLoL = (rng.uniform(0.3, 0.8), rng.uniform(0.1, 0.6),
                              rng.uniform(1.0, 1.1), rng.uniform(0.95, 1.0))
-    pot = wgmodels.quartic1(D=D, E=E, lam=lam, T0=T0)
-    ex = wgmodels.quartic1_exact(**pot.params)
+    which_par = rng.choice(["D", "E"])
+    delta = rng.uniform(0.02, 0.05)
+    par = dict(D=D, E=E, lam=lam, T0=T0, g=100.0)
+    pot = make_quartic(par)
+    cur = dict(ex=quartic_closed(pot.par))
+    ex0 = cur["ex"]
     pot.configureDerivatives(WallGo.VeffDerivativeSettings(
         temperatureVariationScale=1.0, fieldValueVariationScale=10.0))
     # T0 (spinodal of the symmetric phase) < Tn < Tc < spinodal of the broken phase, and the
     # start of every traced window lies strictly between T0 and Tn (tracePhase starts at Tn)
-    Tn = T0 + uTn * (ex["Tc"] - T0)
-    th = Thermodynamics(pot, Tn, Fields([ex["phi_broken"](Tn)]), Fields([0.0]))
+    Tc0, Tsp0 = ex0["Tc"], ex0["Tspin_broken"]
+    Tn = T0 + uTn * (Tc0 - T0)
+    guess = dict(Low=[ex0["phi_broken"](Tn)], High=[0.0])
+    ctor = (pot, Tn, Fields(list(guess["Low"])), Fields(list(guess["High"])))
+    th = Thermodynamics(pot, Tn, Fields(list(guess["Low"])), Fields(list(guess["High"])))
     dT = 0.004 * Tn
     paranoid = variant == 0
     rTol = 1e-8 if variant == 0 else 1e-12
-    case = dict(model="quartic1", D=D, E=E, lam=lam, T0=T0, Tn=Tn, paranoid=paranoid,
-                rTol=rTol)
+    case = dict(model="quartic", D=D, E=E, lam=lam, T0=T0, Tn=Tn, paranoid=paranoid,
+                rTol=rTol, variant=variant, changed=[which_par, delta])
     loH = T0 + uLoH * (Tn - T0)
-    absolute = [0.5 * T0, loH, Tn, ex["Tc"], ex["Tspin_broken"] * 0.999,
-                ex["Tspin_broken"] * 1.2, 3.0 * T0]
+    absolute = [0.5 * T0, loH, Tn, Tc0, Tsp0 * 0.999, Tsp0 * 1.2, 3.0 * T0]
+    adaptive_off = variant == 0
+    if adaptive_off:
+        for fe in (th.freeEnergyHigh, th.freeEnergyLow):
+            fe.disableAdaptiveInterpolation()          # as WallGoManager does
+
+    def trace(which, stage, lo, hi, step, **kw):
+        fe = getattr(th, "freeEnergy" + which)
+        limits = (list(fe.minPossibleTemperature), list(fe.maxPossibleTemperature))
+        fe.tracePhase(lo, hi, step, **kw)
+        ctx.count("tracePhase_called", bucket="paranoid=%s" % kw.get("paranoid", True))
+        if variant == 1 and which == "High":
+            # the symmetric phase traced non-paranoid at rTol 1e-12 takes ~8000 steps (the
+            # integrator chases rounding noise around phi = 0): no second trace for the twin
+            return
+        fe_twin_check(ctx, fe, which, (pot, Tn, guess[which]), adaptive_off, limits,
+                      (lo, hi, step), kw, dict(case, stage=stage, par=dict(pot.par)))
+
+    def closed_form(stage, c2):
+        """p = -Veff at the (closed-form) minimum of the CURRENT potential inside the TABLE's
+        range (taken from the free-energy objects, not from the copies th keeps): between
+        nodes and AT the nodes; alpha where both tables cover the temperature"""
+        ex = cur["ex"]
+        rng_ = {}
+        for ph, fe in (("High", th.freeEnergyHigh), ("Low", th.freeEnergyLow)):
+            lo, hi = fe.minPossibleTemperature[0], fe.maxPossibleTemperature[0]
+            rng_[ph] = (lo, hi)
+            nn = [float(t) for t in np.asarray(fe._interpolationPoints).ravel() if lo < t < hi]
+            for T in [lo + (hi - lo) * x for x in (0.0, 0.05, 0.3, 0.6, 0.95, 1.0)] + \
+                    nn[::max(1, len(nn) // 12)]:
+                want = -ex["V"](ex["phi"][ph](T), T)
+                got = float(getattr(th, "p" + ph + "T")(T))
+                ctx.count("p_in_range_traced")
+                if not margin(ctx, "p = -Veff(min) in range, %s [traced]" % ph,
+                              abs(got - want), 1e-7 * abs(want),
+                              "p%sT(%.9g) [%s]" % (ph, T, stage)):
+                    ctx.fail_input(
+                        "p%sT(%g) = %r but -Veff(min) = %r [%s]" % (ph, T, got, want, stage),
+                        dict(kind="p_in_range", case=c2, T=T, got=got, want=want),
+                        key="p-in-range:" + ph)
+                    break
+        lo, hi = max(rng_["High"][0], rng_["Low"][0]), min(rng_["High"][1], rng_["Low"][1])
+        pts = [Tn] if lo <= Tn <= hi else []
+        if lo < hi:
+            pts.append(lo + 0.5 * (hi - lo))
+        for T in pts:
+            got, want = float(th.alpha(T)), ex["alpha"](T)
+            ctx.count("alpha_traced")
+            if not margin(ctx, "alpha vs closed form [traced]", abs(got - want),
+                          2e-3 * abs(want), "alpha(%.9g) [%s]" % (T, stage)):
+                ctx.fail_input("alpha(%.9g) = %r but the closed form of the two phases gives "
+                               "%r [%s]" % (T, got, want, stage),
+                               dict(kind="alpha", case=c2, T=T, got=got, want=want),
+                               key="alpha-closed-form")
 
     def check(stage):
-        c2 = dict(case, stage=stage)
+        c2 = dict(case, stage=stage, par=dict(pot.par))
         # where Tn lies inside the old range copy AND inside the new table of a phase, the
         # values at Tn do not depend on the extrapolation parameters, so they are the same
         # before and after the call (the tracer may stop short of Tn near a spinodal: then
@@ -332,45 +559,41 @@ def traced_model(ctx, rng, variant=0):
         nodes = {}
         for ph, fe in (("High", th.freeEnergyHigh), ("Low", th.freeEnergyLow)):
             lo, hi = fe.minPossibleTemperature[0], fe.maxPossibleTemperature[0]
-            nn = [float(t) for t in np.asarray(fe._interpolationPoints).ravel()
-                  if lo < t < hi]
-            nodes[ph] = nn[::max(1, len(nn) // 12)]
+            kn = [float(t) for t in np.asarray(fe._interpolationPoints).ravel()]
+            # (nodes closer than 1e-5 T to a neighbour are not probed: around the starting
+            # temperature a tight tolerance makes the integrator take steps of ~1e-7, and
+            # central differences across such a cluster measure the rounding noise of the
+            # tabulated values divided by the cube of the spacing, not the spline)
+            nn = [t for i, t in enumerate(kn) if lo < t < hi and 0 < i < len(kn) - 1
+                  and min(t - kn[i - 1], kn[i + 1] - t) >= 1e-5 * t]
+            # table nodes and the SAME absolute temperatures in every stage (not Tn itself: the
+            # integrator's first steps away from the starting temperature are tiny, and
+            # central differences across knots ~1e-7 apart measure the tracer's noise, not
+            # the spline's derivative; Tn stays among the twin's probe temperatures)
+            nodes[ph] = nn[::max(1, len(nn) // 12)] + [t for t in absolute if t != Tn]
         direct_checks(ctx, th, "traced", c2, extra=nodes)
-        twin_check(ctx, th, "traced", c2, absolute)
+        twin_check(ctx, th, "traced", c2, absolute, ctor=ctor)
         th.setExtrapolate()
-        twin_check(ctx, th, "traced_twice", c2, absolute)
-        # p = -Veff at the (closed-form) minimum inside the TABLE's range (taken from the
-        # free-energy objects, not from the copies th keeps): between nodes and AT the nodes
-        for ph, phi, fe in (("High", lambda T: 0.0, th.freeEnergyHigh),
-                            ("Low", ex["phi_broken"], th.freeEnergyLow)):
-            lo, hi = fe.minPossibleTemperature[0], fe.maxPossibleTemperature[0]
-            for T in [lo + (hi - lo) * x for x in (0.0, 0.05, 0.3, 0.6, 0.95, 1.0)] + nodes[ph]:
-                want = -ex["V"](phi(T), T)
-                got = float(getattr(th, "p" + ph + "T")(T))
-                ctx.count("p_in_range_traced")
-                if not abs(got - want) <= 1e-7 * abs(want):
-                    ctx.fail_input(
-                        "p%sT(%g) = %r but -Veff(min) = %r [%s]" % (ph, T, got, want,
-                                                                     stage),
-                        dict(kind="p_in_range", case=c2, T=T, got=got, want=want),
-                        key="p-in-range:" + ph)
-                    return
+        twin_check(ctx, th, "traced_twice", c2, absolute, ctor=ctor)
+        closed_form(stage, c2)
 
     def other_methods(stage):
         """methods a user (and the manager) calls between setExtrapolate and the reads must
         leave the equation of state alone"""
+        ex = cur["ex"]
         snap = {T: impl_values(th, T) for T in absolute}
         try:
-            Tc = th.findCriticalTemperature(dT=0.05 * (ex["Tc"] - T0), rTol=rTol,
+            Tc = th.findCriticalTemperature(dT=0.05 * (ex["Tc"] - pot.par["T0"]), rTol=rTol,
                                             paranoid=paranoid)
-            ctx.count("findCriticalTemperature_called")
+            ctx.count("findCriticalTemperature_called", bucket="returned")
             if not abs(Tc - ex["Tc"]) <= 1e-4 * ex["Tc"]:
                 ctx.log("NOTE findCriticalTemperature = %r, closed form %r" % (Tc, ex["Tc"]))
         except WallGo.WallGoError as exc:
             lo_, hi_ = th._getCoexistenceRange()
-            dF = lambda T: float(th.freeEnergyLow(T).veffValue - th.freeEnergyHigh(T).veffValue)
-            ctx.log("NOTE findCriticalTemperature raised", exc, "coexistence range", lo_, hi_,
-                    "closed-form Tc", ex["Tc"], "dF at the ends", dF(lo_), dF(hi_), case)
+            ctx.count("findCriticalTemperature_called", bucket="raised")
+            if lo_ < ex["Tc"] < hi_:
+                ctx.log("NOTE findCriticalTemperature raised", exc, "coexistence range", lo_,
+                        hi_, "closed-form Tc", ex["Tc"], case)
         th._getCoexistenceRange()
         for T, v in snap.items():
             w = impl_values(th, T)
@@ -383,31 +606,87 @@ def traced_model(ctx, rng, variant=0):
                                    dict(kind="frame", fn=k, T=T, case=dict(case, stage=stage)),
                                    key="history:changed-by-other-method:" + k)
                     return
-        twin_check(ctx, th, "traced_after_other_methods", dict(case, stage=stage), absolute)
+        twin_check(ctx, th, "traced_after_other_methods", dict(case, stage=stage), absolute,
+                   ctor=ctor)
 
-    # different windows for the two phases (the ends then do not coincide)
-    th.freeEnergyHigh.tracePhase(loH, ex["Tspin_broken"] * uHiH, dT, rTol=rTol,
-                                 paranoid=paranoid)
-    th.freeEnergyLow.tracePhase(0.9 * T0 * uLoL, ex["Tspin_broken"] * 0.999, dT, rTol=rTol,
-                                paranoid=paranoid)
+    # --- 0. a look at both phases before anything is tabulated ---------------------------
+    # (Thermodynamics works without tables: every value is a minimisation from the phase
+    # location given to the constructor; WallGoManager itself evaluates p, w, cs^2 at Tn
+    # before it traces.)  Beyond a spinodal the numbers are meaningless and are not judged;
+    # where the phase exists comfortably the pressure must be the closed form.
+    nlook = 9
+    if variant == 0:
+        look = [0.92 * T0 + (1.08 * Tsp0 - 0.92 * T0) * k / (nlook - 1) for k in range(nlook)]
+    else:
+        look = [0.999 * Tsp0 + (0.9 * T0 - 0.999 * Tsp0) * k / (nlook - 1)
+                for k in range(nlook)]
+    c0 = dict(case, stage="before the first trace")
+    with np.errstate(all="ignore"):
+        for k, T in enumerate(look):
+            vals = impl_values(th, T) if (variant == 0 and k % 4 == 0) else dict(
+                pHighT=float(th.pHighT(T)), pLowT=float(th.pLowT(T)))
+            ctx.count("evaluated_before_first_trace")
+            for ph, ok_ in (("High", T >= T0 + 0.1 * (Tc0 - T0)),
+                            ("Low", T <= T0 + 0.9 * (Tc0 - T0))):
+                if not ok_:
+                    continue
+                want = -ex0["V"](ex0["phi"][ph](T), T)
+                got = vals["p" + ph + "T"]
+                if not margin(ctx, "p = -Veff(min) before the first trace, %s [traced]" % ph,
+                              abs(got - want), 1e-7 * abs(want), "p%sT(%.9g)" % (ph, T)):
+                    ctx.fail_input("p%sT(%g) = %r before the first trace but -Veff(min) = %r"
+                                   % (ph, T, got, want),
+                                   dict(kind="p_before_trace", case=c0, T=T, got=got,
+                                        want=want), key="p-before-trace:" + ph)
+    # --- 1. first trace: different windows for the two phases (the ends do not coincide) ---
+    kw = dict(rTol=rTol, paranoid=paranoid)
+    winH, winL = (loH, Tsp0 * uHiH), (0.9 * T0 * uLoL, Tsp0 * 0.999)
+    trace("High", "first trace", winH[0], winH[1], dT, **kw)
+    trace("Low", "first trace", winL[0], winL[1], dT, **kw)
     check("first trace")
     other_methods("first trace")
+    # --- 2. the potential changes in place; same windows, same settings, limits not lifted ---
+    # (D lowered / E raised: Tc and the end of the low-T phase move UP, so Tn and both windows
+    # stay inside the region where both phases exist)
+    pot.par[which_par] = pot.par[which_par] * ((1 - delta) if which_par == "D" else (1 + delta))
+    cur["ex"] = quartic_closed(pot.par)
+    st = "parameter %s changed in place, same windows and settings" % which_par
+    for which, win in (("High", winH), ("Low", winL)):
+        fe = getattr(th, "freeEnergy" + which)
+        lo = max(fe.minPossibleTemperature[0], win[0])
+        hi = min(fe.maxPossibleTemperature[0], win[1])
+        keep = lo + 3 * dT < Tn < hi - 3 * dT
+        ctx.count("retrace_same_window", bucket="limits kept" if keep else "limits lifted")
+        if not keep:
+            # every trace reports a range 2 dT short of what it covered (issue #145), and the
+            # next one is clipped to it: where that would push the starting temperature out
+            # of the window (tracePhase then fails, not C10's business) the limits are reset
+            fe.minPossibleTemperature = [0.0, False]
+            fe.maxPossibleTemperature = [np.inf, False]
+        trace(which, st, win[0], win[1], dT, **kw)
+    check(st)
     if variant == 0:
-        # history: lift the limits and trace again on the SAME objects, wider ...
+        ex = cur["ex"]
+        Tc, Tsp = ex["Tc"], ex["Tspin_broken"]
+
+        # history: lift the limits and trace again on the SAME objects, wider, with another
+        # step, tolerance and without re-minimising at every step ...
         def lift():
             for fe in (th.freeEnergyHigh, th.freeEnergyLow):
                 fe.minPossibleTemperature = [0.0, False]
                 fe.maxPossibleTemperature = [np.inf, False]
         lift()
-        th.freeEnergyHigh.tracePhase(T0 + 0.05 * (Tn - T0), ex["Tspin_broken"] * 1.3, dT,
-                                     rTol=rTol)
-        th.freeEnergyLow.tracePhase(0.6 * T0, ex["Tspin_broken"] * 0.999, dT, rTol=rTol)
-        check("re-traced wider on the same objects")
-        # ... and narrower, shifted
+        kw2 = dict(rTol=1e-10, paranoid=False)
+        st = "re-traced wider on the same objects, other dT/rTol, not paranoid"
+        trace("High", st, T0 + 0.05 * (Tn - T0), Tsp * 1.3, 0.7 * dT, **kw2)
+        trace("Low", st, 0.6 * T0, Tsp * 0.999, 0.7 * dT, **kw2)
+        check(st)
+        # ... and narrower, shifted, default paranoid, coarser step and looser tolerance
         lift()
-        th.freeEnergyHigh.tracePhase(Tn - 0.3 * (Tn - T0), ex["Tc"] * 1.02, dT, rTol=rTol)
-        th.freeEnergyLow.tracePhase(0.95 * T0, ex["Tc"] * 1.01, dT, rTol=rTol)
-        check("re-traced narrower on the same objects")
+        st = "re-traced narrower on the same objects, other dT/rTol"
+        trace("High", st, Tn - 0.3 * (Tn - T0), Tc * 1.02, 1.1 * dT, rTol=1e-7)
+        trace("Low", st, 0.95 * T0, Tc * 1.01, 1.1 * dT, rTol=1e-7)
+        check(st)
         other_methods("re-traced narrower")
     ctx.sample(dict(traced=case, ranges=[th.TMinHighT, th.TMaxHighT, th.TMinLowT,
                                          th.TMaxLowT]))
@@ -417,9 +696,10 @@ def stub_history(ctx, th, rng, case):
     """histories on one object with analytic tables: setExtrapolate twice, other methods in
     between, the tables' ranges moved (what a re-trace does) and setExtrapolate again"""
     from WallGo import WallGoError
-    twin_check(ctx, th, "stub", case)
+    ctor = stub_ctor(th.Tnucl)
+    twin_check(ctx, th, "stub", case, ctor=ctor)
     th.setExtrapolate()
-    twin_check(ctx, th, "stub_twice", case)
+    twin_check(ctx, th, "stub_twice", case, ctor=ctor)
     snap = {T: impl_values(th, T) for T in probe_temps(th)}
     try:
         lo, hi = th._getCoexistenceRange()
@@ -447,7 +727,7 @@ def stub_history(ctx, th, rng, case):
     th.setExtrapolate()
     c2 = dict(case, stage="ranges moved on the same object")
     direct_checks(ctx, th, "stub_moved", c2)
-    twin_check(ctx, th, "stub_moved", c2, list(snap))
+    twin_check(ctx, th, "stub_moved", c2, list(snap), ctor=ctor)
 
 
 def run(ctx):
@@ -462,14 +742,50 @@ def run(ctx):
             file="src/WallGo/**/*.py (%d files)" % finfo["files"], sha=vlib.sha(ftext)))
         for w in finfo["foreign"] + finfo["dynamic"]:
             ctx.log("writer of a modelled attribute outside __init__/setExtrapolate:", w)
+        for w in finfo["shadow"]:
+            ctx.log("a method of the class is rebound:", w)
         for m in finfo["writers"]:
             if m not in ("__init__", "setExtrapolate"):
                 ctx.log("method %s assigns %s" % (m, finfo["writers"][m]))
+        for m in finfo["env_writers"]:
+            if m != "__init__":
+                ctx.log("method %s rebinds %s" % (m, finfo["env_writers"][m]))
+        if finfo["notes"]:
+            # dynamic attribute access on objects that are not thermodynamics objects: not part
+            # of the frame theorem, listed in the evidence
+            ctx.cov["dynamic_access_elsewhere"] = finfo["notes"]
+            for w in finfo["notes"]:
+                ctx.log("NOTE dynamic attribute access that cannot be tied to a Thermodynamics "
+                        "object (not part of the frame theorem):", w)
     except pyrx.TranslateError as e:
         ctx.log("translator failed:", e)
         ctx.broken.append("translator: %s" % e)
         gen_ok = False
     proved = gen_ok and ctx.prove(extra=["Thermo.v", "ThermoFacts.v"])
+    # The certified evaluations need the generated model and the CORE of the Props file (ties
+    # to the template, state after setExtrapolate, matched coefficients).  A lemma that breaks
+    # further down must not drop them: the core is then compiled on its own.
+    eval_module = "Props_C10" if proved else None
+    if gen_ok and not proved and os.path.exists(os.path.join(ctx.bdir, "Thermo.vo")):
+        with open(os.path.join(vlib.COQ, "Props", "C10.v")) as f:
+            core = f.read().split("(* ==== END OF CORE ====")[0]
+        core = core.replace("From GenC10 Require Import Thermo ThermoFacts.",
+                            "From GenC10 Require Import Thermo.")
+        ok, _, err = ctx.coqc(ctx.write("EvalCore.v", core), timeout=600)
+        if ok:
+            eval_module = "EvalCore"
+            ctx.log("Props/C10.v does not compile as a whole; its core does: the certified "
+                    "model-vs-implementation evaluations are carried out through it")
+        else:
+            ctx.log("the core lemmas of Props/C10.v do not compile either: NO certified "
+                    "model-vs-implementation evaluation in this run", vlib.tail(err, 4))
+            ctx.broken.append("correspondence: certified evaluation impossible (core lemmas "
+                              "of Props/C10.v do not compile)")
+    elif not proved:
+        ctx.log("the generated model does not compile: NO certified model-vs-implementation "
+                "evaluation in this run")
+        ctx.broken.append("correspondence: certified evaluation impossible (generated model "
+                          "does not compile)")
     ctx.trusted += ["tools/pyrx.py + tools/gen_thermo.py (AST translator, writer facts)",
                     "Interval tactic (certified evaluation; uses kernel primitive "
                     "floats/ints)"]
@@ -487,7 +803,7 @@ def run(ctx):
             if m < nmodels else None
         hrng = random.Random(rng.random())
         case = dict(cHigh=jfr(cH), rangeHigh=jfr(rH), cLow=jfr(cL), rangeLow=jfr(rL))
-        th = wgmodels.stub_thermodynamics(cH, rH, cL, rL, float(rH[0]))
+        th = make_stub(cH, rH, cL, rL, float(rH[0]))
         try:
             th.setExtrapolate()
             direct_checks(ctx, th, "stub", case)
@@ -507,10 +823,10 @@ def run(ctx):
                         rows.append((fn + ph + "T", T, vals[fn + ph + "T"]))
             Tmid = rH[0] + (rH[1] - rH[0]) / 2
             rows.append(("alpha", Tmid, impl_values(th, Tmid)["alpha"]))
-            if proved:
+            if eval_module:
                 files.append((m, case, rows,
                               ctx.write("Cases/Eval_%d.v" % m,
-                                        eval_file(m, cH, rH, cL, rL, rows))))
+                                        eval_file(m, cH, rH, cL, rL, rows, eval_module))))
             if m == 0:
                 ctx.sample(dict(stub=case, some_values=[(r[0], str(r[1]), r[2])
                                                         for r in rows[:6]]))
@@ -575,16 +891,25 @@ def run(ctx):
         "taken through a history on the same object (setExtrapolate twice, "
         "findCriticalTemperature/_getCoexistenceRange, ranges moved, setExtrapolate) and "
         "compared bit for bit with a fresh object on the same tables; distinct = distinct "
-        "coefficient/range tuple; traced models use the real FreeEnergy.tracePhase with "
-        "random Tn and windows, three traces on the same objects")
+        "coefficient/range tuple; stub objects are built by Thermodynamics.__init__ and their "
+        "tables swapped in; traced models use the real FreeEnergy.tracePhase on a quartic "
+        "potential with random parameters, Tn and windows: all EOS functions read before "
+        "the first trace on a grid running beyond a spinodal, first trace, one parameter "
+        "(D or E, 2-5%) changed in place and both phases re-traced over the same windows with "
+        "the same settings, then (paranoid variant) re-traced wider with another dT/rTol and "
+        "paranoid off and narrower with yet other settings; after every trace the "
+        "free-energy object is compared bit for bit with a fresh one traced with the same "
+        "arguments, after every stage p and alpha with the closed form of the current "
+        "potential; tolerance_margins = worst observed/allowed per clause in this run")
     ctx.assumptions += [
         "the interpolation spline and its derivative(order) are a C2 function and its "
         "derivatives (external: scipy CubicSpline; central differences at the probe points "
         "and at table nodes)",
         "w>0 and de/dT>0 at the ends of each tabulated range (hypotheses of the theorems; "
         "asserted on every stub and traced object, counted under hypotheses_*)",
-        "the tables are -Veff at the traced minimum (property C11; here only compared with "
-        "the closed form on windows that stop short of both spinodals)"]
+        "the tables are -Veff at the traced minimum (property C11; here compared with the "
+        "closed form of the current potential after every trace, on windows that stop short "
+        "of the spinodals except the narrow re-trace of weak transitions)"]
 
 
 def replay(rep):
@@ -592,8 +917,7 @@ def replay(rep):
     c = rep.get("case", {})
     if "cHigh" in c:
         f = lambda l: [Fraction(x) for x in l]
-        th = wgmodels.stub_thermodynamics(f(c["cHigh"]), f(c["rangeHigh"]), f(c["cLow"]),
-                                          f(c["rangeLow"]), 1.0)
+        th = make_stub(f(c["cHigh"]), f(c["rangeHigh"]), f(c["cLow"]), f(c["rangeLow"]), 1.0)
         th.setExtrapolate()
         T = rep.get("T")
         if T:
